@@ -178,8 +178,9 @@ def main(argv):
         else: new_mis.append((l, v))
     if replay:
         for l, v in zip(lines, verdicts): print(l[:2000]); print("   ->", v[:2000])
-    for kid, (k, l) in known_hit.items():
-        print(f"KNOWN-FINDING: property={pid} {k['what']}")
+    for k in known:
+        hit = k["id"] in known_hit
+        print(f"KNOWN-FINDING: property={pid} {k['id']} {k['what']}" + ("" if hit else " [not triggered by this run's inputs]"))
     violation = None
     if new_mis or badlines:
         bad = sorted(new_mis + badlines, key=lambda lv: len(lv[0]))[:5]
